@@ -30,7 +30,9 @@ fn mark(c: &mut CmdSpec, path: &str) {
         }
     }
     for (i, s) in c.subs.iter_mut().enumerate() {
-        s.name = format!("m{}c{}cmd", path, i);
+        // the marker is the alphanumeric stem; the tail varies the name shape (hyphen, underscore)
+        let tail = ["cmd", "cmd", "-cmd", "_cmd"][(i + path.len()) % 4];
+        s.name = format!("m{}c{}{}", path, i, tail);
         for (k, al) in s.aliases.iter_mut().enumerate() {
             al.0 = format!("m{}c{}als{}", path, i, k);
         }
